@@ -218,6 +218,16 @@ Section Speed.
   Qed.
 End Speed.
 
+(** [Clocks::update] = [for_each]: clock [k] is updated against the storage in which its own slot
+    shows the dummy; the others are seen as they are at that moment *)
+Lemma for_each_own_dummy {T : Type} {NT : Num T} {ND : NumDur T} (powf : T -> T -> T)
+      (fuel : nat) (k : nat) (todo : list nat) (slots : list (slot T)) (s : slot T) (dt : T) :
+  nth_error slots k = Some s -> sl_life s = Live ->
+  clocks_update_from powf fuel (k :: todo) slots dt =
+    (let! c' := clock_update powf fuel (sl_clock s) dt (info_for slots k) in
+     clocks_update_from powf fuel todo (set_nth k (with_clock s c') slots) dt).
+Proof. intros E L. cbn [clocks_update_from]. rewrite E, L. reflexivity. Qed.
+
 (** the witness: two clocks at 2 ticks/s, 512 Hz, buffers of 64 frames, 4 s of audio; clock 0 is told
     to switch to 8 ticks/s at tick 1.  Scheduled on its OWN time the change never happens (8 ticks =
     2 x 4); scheduled on the other clock (which shows the same time) it does (29 ticks). *)
@@ -287,3 +297,14 @@ Proof.
   split; [split; [vm_compute; reflexivity|apply same_eq; vm_compute; repeat split; reflexivity]|].
   split; vm_compute; reflexivity.
 Qed.
+
+(** non-vacuity of [clock_run_exact]'s hypotheses: a linear speed tween 2 -> 4 ticks/s over 1 s,
+    two updates of 1/2 s: the speeds in force are 3 and 4, the increments 3/2 and 2 *)
+Example varying_example :
+  let c := clock_on_start (fresh_ticking (TicksPerSecond 2))
+             {| k_speed := Some (Fixed (TicksPerSecond 4), {| tw_start := Immediate; tw_dur := 1000000000; tw_easing := Linear |});
+                k_ticking := None; k_reset := false |} in
+  increments (fun _ _ => 0) (c_speed c) [(1 # 2, no_info); (1 # 2, no_info)] = Ok [3 # 2; 2] /\
+  exists c', clock_run (fun _ _ => 0) 10 c [(1 # 2, no_info); (1 # 2, no_info)] = Ok c' /\ c_state c' = Started 3 (1 # 2).
+Proof. split; [vm_compute; reflexivity|]. eexists. split; vm_compute; reflexivity. Qed.
+
